@@ -91,7 +91,7 @@ def prog(variant: int, grp: int, vi: int, vf: int, vs: int, vt: int, vl: int, vd
     format_policy('faithful')
     variant = pick(variant, 0, 2)
     kw = {}
-    grp = pick(grp, 0, 3)
+    grp = pick(grp, 0, 4)
     # each group varies some parameters and leaves the others at their defaults
     if grp == 0:
         kw['i'] = [1, 0, -7, 10 ** 20][pick(vi, 0, 3)]
@@ -115,15 +115,39 @@ def prog(variant: int, grp: int, vi: int, vf: int, vs: int, vt: int, vl: int, vd
             kw['sub'] = Inner(k=3, s="x'")
         elif sb == 3:
             kw['sub'] = Inner(name='inner_explicit')
+    hist = None
+    if grp == 4:
+        # a history: instance set, class-level default change, instance set again (values from a small pool)
+        n = None
+        hist = ([1, 2, 3][pick(vi, 0, 2)], [1, 2, 3][pick(vs, 0, 2)], [1, 2, 3][pick(vt, 0, 2)])
     if variant == 2:
         kw['a'] = [0, 9][pick(va, 0, 1)]
         kw['b'] = [2, 5, 7][pick(vb, 0, 2)]
     with untraced():
-        _run(variant, kw, n, grp)
+        _run(variant, kw, n, grp, hist)
 
 
-def _run(variant, kw, n, grp):
+def _run(variant, kw, n, grp, hist=None):
     K = CLASSES[variant]
+    if hist is not None:
+        saved = K.i
+        try:
+            p = K(**kw)
+            p.i = hist[0]
+            K.i = hist[1]          # the class default changes while the instance exists
+            p.i = hist[2]
+            info = {'variant': K.__name__, 'group': grp, 'history': list(hist)}
+            text = p.param.pprint()
+            try:
+                q = eval(text, dict(NS))
+                err = None
+            except Exception as e:      # noqa
+                q, err = None, '%s: %s' % (type(e).__name__, e)
+            check('C20.evals', err is None, dict(info, text=text, err=err))
+            _compare('C20.values_equal', p, q, dict(info, text=text), explicit_name=False)
+        finally:
+            K.i = saved
+        return
     if n is not None:
         kw = dict(kw, name=n.replace('V', K.__name__[0]) if n.startswith('V') else n)
         if n == 'P1':
@@ -153,7 +177,7 @@ def _run(variant, kw, n, grp):
     _compare('C20.script_repr', p, q2, dict(info, text=sr), explicit_name=n is not None)
 
 
-prog.ranges = lambda consts: dict(variant=(0, 2), grp=(0, 3), vi=(0, 3), vf=(0, len(FLOATS) - 1), vs=(0, len(STRS) - 1),
+prog.ranges = lambda consts: dict(variant=(0, 2), grp=(0, 4), vi=(0, 3), vf=(0, len(FLOATS) - 1), vs=(0, len(STRS) - 1),
                                   vt=(0, len(TUPLES) - 1), vl=(0, len(LISTS) - 1), vd=(0, len(DICTS) - 1), sub=(0, 3),
                                   nm=(0, len(NAMES) - 1), va=(0, 1), vb=(0, 2))
 
@@ -223,7 +247,7 @@ def extra(tier):
 def shards(tier):
     out = []
     for variant in range(3):
-        for grp in range(4):
+        for grp in range(5):
             out.append(dict(name='v%d_g%d' % (variant, grp), module='harness.c20', fn='prog', consts=dict(variant=variant, grp=grp),
                             budget_s=60 if tier == 'quick' else 300))
     return out
